@@ -17,10 +17,11 @@ use std::{
 use compio_buf::{BufResult, IntoInner};
 use compio_driver::{
     AsyncifyPool, ProactorBuilder,
-    op::{Accept, Asyncify, Read, ReadAt, Recv, RecvFlags, Send, SendFlags},
+    op::{Accept, Asyncify, Read, ReadAt, Recv, RecvFlags, RecvMulti, Send, SendFlags, SendZc},
     verif::{self, Kind as HK},
 };
-use compio_runtime::{CancelToken, FutureExt as _, Runtime, RuntimeBuilder};
+use compio_runtime::{CancelToken, FutureExt as _, Runtime, RuntimeBuilder, StreamExt as _, SubmitMulti};
+use futures_util::{Stream, StreamExt, stream::FusedStream};
 
 use crate::{
     model::*,
@@ -99,9 +100,66 @@ pub enum Outcome {
     Bytes(usize, TrackedBuf),
     Accepted(usize, socket2::Socket),
     Failed(i32),
+    /// one item of a multishot receive (bytes copied out of the pool buffer)
+    Item(Vec<u8>),
+    /// zero-copy send: the send result (first completion)
+    ZcSent(usize),
+    /// zero-copy send: the notification arrived and the buffer came back
+    ZcDone(Option<TrackedBuf>),
 }
 
-type Holder = Pin<Box<dyn Future<Output = Result<Outcome, String>>>>;
+impl Outcome {
+    fn terminal(&self) -> bool {
+        matches!(self, Outcome::Failed(_) | Outcome::ZcDone(_))
+    }
+}
+
+type FutBox = Pin<Box<dyn Future<Output = Result<Outcome, String>>>>;
+type StreamBox = Pin<Box<dyn Stream<Item = Outcome>>>;
+
+enum Holder {
+    Fut(FutBox),
+    Stream(StreamBox),
+}
+
+/// Drives a zero-copy send the way compio-net does: first item = send result, the stream's end
+/// = the kernel's release notification, only then the operation (and its buffer) comes back.
+struct ZcDrive {
+    st: Option<SubmitMulti<SendZc<TrackedBuf, TrackedFd>>>,
+    sent: bool,
+}
+
+impl Stream for ZcDrive {
+    type Item = Outcome;
+
+    fn poll_next(mut self: Pin<&mut Self>, cx: &mut Context<'_>) -> Poll<Option<Outcome>> {
+        let Some(st) = self.st.as_mut() else {
+            return Poll::Ready(None);
+        };
+        match std::task::ready!(StreamExt::poll_next_unpin(st, cx)) {
+            Some(BufResult(res, _extra)) => {
+                if st.is_terminated() {
+                    let buf = self.st.take().and_then(|s| s.try_take().ok()).map(|op| op.into_inner());
+                    match res {
+                        Err(e) => Poll::Ready(Some(Outcome::Failed(errno(&e)))),
+                        Ok(_) if !self.sent => Poll::Ready(Some(Outcome::Failed(-2))),
+                        Ok(_) => Poll::Ready(Some(Outcome::ZcDone(buf))),
+                    }
+                } else {
+                    self.sent = true;
+                    match res {
+                        Ok(n) => Poll::Ready(Some(Outcome::ZcSent(n))),
+                        Err(e) => Poll::Ready(Some(Outcome::ZcSent(usize::MAX - errno(&e) as usize))),
+                    }
+                }
+            }
+            None => {
+                self.st = None;
+                Poll::Ready(None)
+            }
+        }
+    }
+}
 
 fn errno(e: &std::io::Error) -> i32 {
     e.raw_os_error().unwrap_or(-1)
@@ -214,6 +272,25 @@ fn unix_connect(name: &str) -> OwnedFd {
     fd
 }
 
+pub const ZC_PREFILL: usize = 8192;
+
+/// connected TCP pair on loopback whose accepting side has a minimal receive buffer:
+/// (operation side, peer)
+fn tcp_pair() -> (OwnedFd, OwnedFd) {
+    use std::net::{TcpListener, TcpStream};
+    let l = TcpListener::bind("127.0.0.1:0").expect("harness: tcp bind");
+    let v: libc::c_int = 1;
+    unsafe {
+        libc::setsockopt(l.as_raw_fd(), libc::SOL_SOCKET, libc::SO_RCVBUF, &v as *const _ as _, 4);
+    }
+    let a = TcpStream::connect(l.local_addr().unwrap()).expect("harness: tcp connect");
+    let (b, _) = l.accept().expect("harness: tcp accept");
+    a.set_nodelay(true).unwrap();
+    a.set_nonblocking(true).unwrap();
+    b.set_nonblocking(true).unwrap();
+    (OwnedFd::from(a), OwnedFd::from(b))
+}
+
 // ------------------------------------------------------------------------------------------
 // resources
 // ------------------------------------------------------------------------------------------
@@ -230,6 +307,8 @@ enum ResKind {
         drained: bool,
         /// non-prefill bytes read from the peer end
         peer_got: Vec<u8>,
+        /// TCP pair with `ZC_PREFILL` zero bytes queued towards a peer whose window is closed
+        tcp_prefill_left: usize,
     },
     Listener {
         name: String,
@@ -272,6 +351,10 @@ struct OpState {
     piece: Option<(usize, usize)>,
     delivered: bool,
     harvest_after_cancel: bool,
+    /// stream operations: items yielded so far / stream bytes consumed so far
+    items: usize,
+    consumed: usize,
+    result_n: Option<usize>,
 }
 
 #[derive(Default, Clone, Debug)]
@@ -348,6 +431,9 @@ pub struct World<'a> {
     file_path: &'a Path,
     made_ready_since_harvest: u32,
     result_class: Vec<String>,
+    /// per resource: (stream offset, stamp taken just before the harness wrote that chunk)
+    write_stamps: Vec<Vec<(usize, u64)>>,
+    pool_frees_before_ring_closed: bool,
     finals_this_step: u32,
     torn_down: bool,
 }
@@ -408,6 +494,8 @@ impl<'a> World<'a> {
             file_path: env.file_path,
             made_ready_since_harvest: 0,
             result_class: vec![String::new(); prog.ops.len()],
+            write_stamps: vec![Vec::new(); prog.nres()],
+            pool_frees_before_ring_closed: false,
             finals_this_step: 0,
             torn_down: false,
         };
@@ -434,6 +522,9 @@ impl<'a> World<'a> {
                 piece: None,
                 delivered: false,
                 harvest_after_cancel: false,
+                items: 0,
+                consumed: 0,
+                result_n: None,
             });
         }
         w
@@ -475,6 +566,26 @@ impl<'a> World<'a> {
                             prefilled: wants_prefill,
                             drained: false,
                             peer_got: Vec::new(),
+                            tcp_prefill_left: 0,
+                        },
+                        Some(a),
+                    )
+                }
+                Kind::Zc => {
+                    let (a, b) = tcp_pair();
+                    let zeros = vec![0u8; ZC_PREFILL];
+                    let n = write_nb(a.as_raw_fd(), &zeros);
+                    assert_eq!(n, ZC_PREFILL as isize, "harness: tcp prefill");
+                    let obs = dup(a.as_raw_fd());
+                    (
+                        ResKind::Stream {
+                            peer: b,
+                            obs,
+                            written: Vec::new(),
+                            prefilled: true,
+                            drained: false,
+                            peer_got: Vec::new(),
+                            tcp_prefill_left: ZC_PREFILL,
                         },
                         Some(a),
                     )
@@ -501,7 +612,6 @@ impl<'a> World<'a> {
                     let f = std::fs::File::open(self.file_path).expect("data file");
                     (ResKind::File, Some(OwnedFd::from(f)))
                 }
-                Kind::Zc => unimplemented!("zc resource"),
             };
             self.ress.push(Res {
                 kind,
@@ -805,14 +915,14 @@ impl<'a> World<'a> {
             ($f:expr) => {{
                 let f = $f;
                 match spec.mode {
-                    Mode::Direct => Box::pin(async move { Ok(f.await) }) as Holder,
+                    Mode::Direct => Holder::Fut(Box::pin(async move { Ok(f.await) })),
                     Mode::Token => {
                         let t = token.expect("token");
-                        Box::pin(async move { Ok(f.with_cancel(t).await) }) as Holder
+                        Holder::Fut(Box::pin(async move { Ok(f.with_cancel(t).await) }))
                     }
                     Mode::Task => {
                         let h = rt.spawn(f);
-                        Box::pin(async move { h.await.map_err(|e| format!("{e:?}")) }) as Holder
+                        Holder::Fut(Box::pin(async move { h.await.map_err(|e| format!("{e:?}")) }))
                     }
                 }
             }};
@@ -893,7 +1003,35 @@ impl<'a> World<'a> {
                     }
                 })
             }
-            Kind::Multi | Kind::Zc => unimplemented!("stream kinds"),
+            Kind::Multi => {
+                let pool = rt.buffer_pool().expect("harness: buffer pool");
+                let op = RecvMulti::new(fd.unwrap(), &pool, 16, RecvFlags::empty()).expect("harness: RecvMulti");
+                let st = rt.submit_multi(op).into_managed(pool).map(|r| match r {
+                    Ok(Some(b)) => Outcome::Item(b.to_vec()),
+                    Ok(None) => Outcome::Item(Vec::new()),
+                    Err(e) => Outcome::Failed(errno(&e)),
+                });
+                match spec.mode {
+                    Mode::Direct => Holder::Stream(Box::pin(st)),
+                    Mode::Token => Holder::Stream(Box::pin(st.with_cancel(token.expect("token")))),
+                    Mode::Task => panic!("harness: stream operations cannot be awaited in a task"),
+                }
+            }
+            Kind::Zc => {
+                let st = ZcDrive {
+                    st: Some(rt.submit_multi(SendZc::new(
+                        fd.unwrap(),
+                        TrackedBuf::send(bid, &send_payload(i), &sink),
+                        SendFlags::empty(),
+                    ))),
+                    sent: false,
+                };
+                match spec.mode {
+                    Mode::Direct => Holder::Stream(Box::pin(st)),
+                    Mode::Token => Holder::Stream(Box::pin(st.with_cancel(token.expect("token")))),
+                    Mode::Task => panic!("harness: stream operations cannot be awaited in a task"),
+                }
+            }
         })
     }
 
@@ -942,6 +1080,7 @@ impl<'a> World<'a> {
         match (&mut r.kind, class) {
             (ResKind::Stream { peer, written, .. }, Class::In) => {
                 let start = written.len();
+                self.write_stamps[res as usize].push((start, verif::next_seq()));
                 let data: Vec<u8> = (start..start + CHUNK).map(|k| in_byte(res, k)).collect();
                 let n = write_nb(peer.as_raw_fd(), &data);
                 assert_eq!(n, CHUNK as isize, "harness write to peer");
@@ -970,14 +1109,32 @@ impl<'a> World<'a> {
 
     /// reads everything from the peer end; zero bytes are prefill, the rest is payload
     fn drain_peer(&mut self, res: usize) {
-        if let ResKind::Stream { peer, peer_got, .. } = &mut self.ress[res].kind {
+        // TCP: the prefill (and the payload of a send that was already issued) trickles in as the
+        // window opens, so read until everything that was queued has arrived
+        let zc_sent: usize = self
+            .ops
+            .iter()
+            .enumerate()
+            .filter(|(_, o)| o.spec.res as usize == res && o.spec.kind == Kind::Zc && o.submitted)
+            .map(|(i, _)| send_payload(i).len())
+            .sum();
+        if let ResKind::Stream { peer, peer_got, tcp_prefill_left, .. } = &mut self.ress[res].kind {
             let mut buf = [0u8; 4096];
+            let deadline = Instant::now() + Duration::from_millis(500);
             loop {
                 let n = read_nb(peer.as_raw_fd(), &mut buf);
-                if n <= 0 {
+                if n > 0 {
+                    let zeros = buf[..n as usize].iter().filter(|&&b| b == 0).count();
+                    *tcp_prefill_left = tcp_prefill_left.saturating_sub(zeros);
+                    peer_got.extend(buf[..n as usize].iter().copied().filter(|&b| b != 0));
+                    continue;
+                }
+                let want_more = *tcp_prefill_left > 0 || (zc_sent > 0 && peer_got.len() < zc_sent);
+                let tcp = zc_sent > 0 || *tcp_prefill_left > 0;
+                if !(tcp && want_more) || Instant::now() > deadline {
                     break;
                 }
-                peer_got.extend(buf[..n as usize].iter().copied().filter(|&b| b != 0));
+                std::thread::sleep(Duration::from_micros(20));
             }
         }
     }
@@ -1089,15 +1246,32 @@ impl<'a> World<'a> {
     }
 
     fn poll_holder(&mut self, i: usize) -> String {
+        let mut notes = Vec::new();
+        loop {
+            let (note, again) = self.poll_once(i);
+            notes.push(note);
+            if !again || notes.len() > 8 {
+                break;
+            }
+        }
+        notes.join("+")
+    }
+
+    /// one poll of the future / one poll_next of the stream; `true` = a stream item was
+    /// delivered and the stream is to be polled again
+    fn poll_once(&mut self, i: usize) -> (String, bool) {
         let Some(mut h) = self.ops[i].holder.take() else {
-            return "gone".into();
+            return ("gone".into(), false);
         };
         let waker = Waker::from(self.ops[i].waker.clone());
         let mut cx = Context::from_waker(&waker);
         let wakes_before = self.ops[i].waker.0.load(Ordering::SeqCst);
-        let r = {
+        let r: Poll<Option<Result<Outcome, String>>> = {
             let rt = self.rt.as_ref().unwrap();
-            rt.enter(|| h.as_mut().poll(&mut cx))
+            rt.enter(|| match &mut h {
+                Holder::Fut(f) => f.as_mut().poll(&mut cx).map(Some),
+                Holder::Stream(st) => st.as_mut().poll_next(&mut cx).map(|o| o.map(Ok)),
+            })
         };
         self.collect();
         self.ops[i].dirty = false;
@@ -1115,14 +1289,12 @@ impl<'a> World<'a> {
                     );
                 }
                 self.ops[i].wakes_at_pending = Some(self.ops[i].waker.0.load(Ordering::SeqCst));
-                "Pending".into()
+                ("Pending".into(), false)
             }
             Poll::Ready(res) => {
-                drop(h);
-                self.ops[i].done = true;
                 // waker rule: between the Pending poll that registered the waker and this Ready
                 // poll the waker must have been invoked
-                if let Some(w0) = self.ops[i].wakes_at_pending {
+                if let Some(w0) = self.ops[i].wakes_at_pending.take() {
                     if wakes_before <= w0 {
                         let class = format!("ready-without-wake:{}", self.opname(i));
                         self.fail(
@@ -1133,14 +1305,70 @@ impl<'a> World<'a> {
                     }
                 }
                 match res {
-                    Ok(out) => self.on_ready(i, out),
-                    Err(e) => {
+                    None => {
+                        drop(h);
+                        self.ops[i].done = true;
+                        ("End".into(), false)
+                    }
+                    Some(Ok(out)) => {
+                        let is_stream = matches!(h, Holder::Stream(_));
+                        if is_stream && !out.terminal() {
+                            self.ops[i].holder = Some(h);
+                            (self.on_item(i, out), true)
+                        } else {
+                            drop(h);
+                            self.ops[i].done = true;
+                            (self.on_ready(i, out), false)
+                        }
+                    }
+                    Some(Err(e)) => {
+                        drop(h);
+                        self.ops[i].done = true;
                         let class = format!("task-failed:{}", self.opname(i));
                         self.fail("result", class, format!("task awaiting op {i} ended with {e}"));
-                        format!("TaskErr({e})")
+                        (format!("TaskErr({e})"), false)
                     }
                 }
             }
+        }
+    }
+
+    /// a non-terminal stream item
+    fn on_item(&mut self, i: usize, out: Outcome) -> String {
+        let name = self.opname(i);
+        let spec = self.ops[i].spec;
+        self.ops[i].items += 1;
+        // hook view: every item corresponds to one intermediate (or the final) completion
+        let avail: usize = self.ops[i].ids.iter().map(|id| self.ids[id].multis.len() + self.ids[id].finals.len()).sum();
+        if self.ops[i].items > avail {
+            self.fail("hooks", format!("item-without-completion:{name}"), format!("op {i} yielded {} items but only {avail} completions were logged", self.ops[i].items));
+        }
+        match out {
+            Outcome::Item(data) => {
+                let written = match &self.ress[spec.res as usize].kind {
+                    ResKind::Stream { written, .. } => written.clone(),
+                    _ => Vec::new(),
+                };
+                let pos = self.ops[i].consumed;
+                let note = format!("Item({:02x?})", data);
+                if data.is_empty() || pos + data.len() > written.len() || written[pos..pos + data.len()] != data[..] {
+                    self.fail("result", format!("wrong-data:{name}"), format!("multishot op {i} yielded {:02x?} at stream offset {pos}; the peer wrote {:02x?}", data, written));
+                } else {
+                    self.ops[i].consumed += data.len();
+                    self.ops[i].piece = Some((0, self.ops[i].consumed));
+                }
+                self.reach("multishot_item_delivered");
+                note
+            }
+            Outcome::ZcSent(n) => {
+                let pl = send_payload(i);
+                if n != pl.len() {
+                    self.fail("result", format!("wrong-count:{name}"), format!("zero-copy send {i} reported {n} bytes of {}", pl.len()));
+                }
+                self.ops[i].result_n = Some(n);
+                format!("Sent({n})")
+            }
+            _ => "?".into(),
         }
     }
 
@@ -1201,6 +1429,39 @@ impl<'a> World<'a> {
                     note = "Accepted(?)".into();
                 }
                 drop(sock);
+            }
+            Outcome::Item(_) | Outcome::ZcSent(_) => {
+                note = "?".into();
+            }
+            Outcome::ZcDone(buf) => {
+                self.result_class[i] = "zc-done".into();
+                note = "ZcDone".into();
+                let pl = send_payload(i);
+                // hook view: the buffer comes back only after the notification, i.e. after a
+                // final completion that follows the send completion
+                let (multis, finals) = self.ops[i].ids.iter().fold((0, 0), |a, id| (a.0 + self.ids[id].multis.len(), a.1 + self.ids[id].finals.len()));
+                if multis == 0 || finals == 0 {
+                    self.fail("lifetime", format!("zc-buffer-returned-before-notification:{name}"), format!("zero-copy send {i} handed its buffer back after {multis} send completions and {finals} final completions"));
+                }
+                self.drain_peer(spec.res as usize);
+                let got = match &self.ress[spec.res as usize].kind {
+                    ResKind::Stream { peer_got, .. } => peer_got.clone(),
+                    _ => Vec::new(),
+                };
+                let n = self.ops[i].result_n.unwrap_or(0);
+                if n != pl.len() || got != pl {
+                    self.fail("result", format!("wrong-data:{name}"), format!("zero-copy send {i} reported {n} bytes; the peer received {:02x?}, payload was {:02x?}", got, pl));
+                }
+                match buf {
+                    Some(b) => {
+                        if b.id != self.ops[i].buf_id || b.raw() != &pl[..] {
+                            self.fail("result", format!("foreign-buffer:{name}"), format!("zero-copy send {i} got buffer {} ({:02x?}) back", b.id, b.raw()));
+                        }
+                        drop(b);
+                    }
+                    None => self.fail("result", format!("no-buffer:{name}"), format!("zero-copy send {i} finished but the operation could not be taken back")),
+                }
+                self.reach("zerocopy_buffer_returned_after_notification");
             }
             Outcome::Bytes(n, buf) => {
                 self.result_class[i] = format!("ok{n}");
@@ -1301,19 +1562,33 @@ impl<'a> World<'a> {
     // C02 epilogue: everything submitted must complete, exactly once, with its own result
     // --------------------------------------------------------------------------------------
 
+    /// submitted, still held by the program, and something is still to be delivered
+    fn still_owed(&self, i: usize) -> bool {
+        let o = &self.ops[i];
+        if !o.submitted || o.holder.is_none() {
+            return false;
+        }
+        if o.spec.kind == Kind::Multi {
+            let written = match &self.ress[o.spec.res as usize].kind {
+                ResKind::Stream { written, .. } => written.len(),
+                _ => 0,
+            };
+            return o.items == 0 || o.consumed < written;
+        }
+        true
+    }
+
     fn epilogue(&mut self) {
         if self.rt.is_none() {
             return;
         }
         for _round in 0..4 {
-            let pend: Vec<usize> = (0..self.ops.len())
-                .filter(|&i| self.ops[i].submitted && self.ops[i].holder.is_some())
-                .collect();
+            let pend: Vec<usize> = (0..self.ops.len()).filter(|&i| self.still_owed(i)).collect();
             if pend.is_empty() {
                 break;
             }
             for p in 0..self.ports.len() {
-                let users = self.port_users_pending(p);
+                let users: Vec<usize> = self.port_users_pending(p).into_iter().filter(|&i| self.still_owed(i)).collect();
                 if !users.is_empty() && !users.iter().any(|&i| self.completion_enabled(i)) {
                     self.do_make_ready(p);
                 }
@@ -1328,9 +1603,23 @@ impl<'a> World<'a> {
                 self.obs.push(format!("epilogue poll({i}) -> {n}"));
             }
         }
+        // a multishot receive that delivered everything is ended by dropping (cancelling) it
+        let mut dropped_multi = false;
+        for i in 0..self.ops.len() {
+            if self.ops[i].spec.kind == Kind::Multi && self.ops[i].holder.is_some() && !self.still_owed(i) {
+                let h = self.ops[i].holder.take();
+                self.rt.as_ref().unwrap().enter(|| drop(h));
+                self.ops[i].cancel_step = Some(self.step_idx);
+                self.ops[i].delivered = true;
+                dropped_multi = true;
+            }
+        }
+        if dropped_multi && !self.stuck {
+            self.do_harvest();
+        }
         if !self.stuck {
             for i in 0..self.ops.len() {
-                if self.ops[i].submitted && self.ops[i].holder.is_some() {
+                if self.still_owed(i) {
                     let class = format!("never-completed:{}", self.opname(i));
                     self.fail("liveness", class, format!("op {i} is still pending after everything it waits for was made ready and harvested"));
                 }
@@ -1341,8 +1630,33 @@ impl<'a> World<'a> {
         for (id, s) in self.ids.clone() {
             let handed = s.submit.is_some() || s.pool_submit.is_some();
             let name = if s.op < self.ops.len() { self.opname(s.op) } else { "?".into() };
-            if handed && s.finals.is_empty() && !self.stuck {
+            let cancelled = s.op < self.ops.len() && self.ops[s.op].cancel_step.is_some();
+            if handed && s.finals.is_empty() && !self.stuck && !cancelled {
                 self.fail("hooks", format!("no-final:{name}"), format!("operation storage {id} (op {}) was handed over but never got a final completion", s.op));
+            }
+        }
+        // polling driver: compio itself matches readiness to the head of its per-descriptor queue,
+        // so a reader that was queued first (and before the bytes arrived) gets the earlier bytes
+        if !self.cfg.is_uring() {
+            for a in 0..self.ops.len() {
+                for b in 0..self.ops.len() {
+                    let (oa, ob) = (&self.ops[a], &self.ops[b]);
+                    if a == b || oa.spec.res != ob.spec.res || oa.spec.kind.class() != Class::In || ob.spec.kind.class() != Class::In {
+                        continue;
+                    }
+                    let (Some((pa, _)), Some((pb, _))) = (oa.piece, ob.piece) else { continue };
+                    let sa = oa.ids.iter().filter_map(|id| self.ids[id].submit).min();
+                    let sb = ob.ids.iter().filter_map(|id| self.ids[id].submit).min();
+                    let (Some(sa), Some(sb)) = (sa, sb) else { continue };
+                    let stamp_b = self.write_stamps[ob.spec.res as usize].iter().rev().find(|(off, _)| *off <= pb).map(|x| x.1);
+                    if sa < sb && pb < pa && stamp_b.is_some_and(|w| sa < w) {
+                        let class = format!("poll-fifo:{}", self.opname(a));
+                        let msg = format!(
+                            "polling driver: op {a} was queued on the descriptor before op {b} and before stream offset {pb} was written, yet op {b} received offset {pb} and op {a} the later offset {pa}"
+                        );
+                        self.fails.push(Fail { oracle: "result", class, msg });
+                    }
+                }
             }
         }
         // conservation: what the readers did not report is still in the descriptor
@@ -1436,7 +1750,7 @@ impl<'a> World<'a> {
                     let o = &self.ops[i];
                     o.submitted
                         && (o.ids.iter().any(|id| self.ids[id].frees.is_empty())
-                            || (o.spec.kind != Kind::Accept
+                            || (!matches!(o.spec.kind, Kind::Accept | Kind::Multi)
                                 && !self.trace.iter().any(|t| matches!(t.ev, Ev::Har(HKind::BufDrop(b)) if b == o.buf_id))))
                 });
                 if !missing || Instant::now() > deadline {
@@ -1583,7 +1897,7 @@ impl<'a> World<'a> {
                 }
             }
             let nd = buf_drops.get(&o.buf_id).map(|v| v.len()).unwrap_or(0);
-            if nd != 1 && o.spec.kind != Kind::Accept {
+            if nd != 1 && !matches!(o.spec.kind, Kind::Accept | Kind::Multi) {
                 fails.push(Fail {
                     oracle: "lifetime",
                     class: format!("{}:{name}", if nd == 0 { "buffer-leak" } else { "buffer-double-drop" }),
